@@ -43,12 +43,36 @@ func FromXJS(p *ast.Program) (n *ir.Node, err error) {
 	if p == nil {
 		return nil, shapeErr("nil program")
 	}
+	return convProgram(&xc{}, p), nil
+}
+
+func convProgram(c *xc, p *ast.Program) *ir.Node {
 	out := ir.N(ir.Program, "")
 	out.Kids = []*ir.Node{}
 	for i, s := range p.Statements {
-		out.Kids = append(out.Kids, xstmt(s, fmt.Sprintf("stmt[%d]", i)))
+		out.Kids = append(out.Kids, c.xstmt(s, fmt.Sprintf("stmt[%d]", i)))
 	}
-	return out, nil
+	return out
+}
+
+// CheckComplete verifies only that every mandatory child is present (no nil
+// or typed-nil where the printer dereferences); it accepts node combinations
+// outside the subset (e.g. a non-identifier member property).
+func CheckComplete(p *ast.Program) (err error) {
+	defer func() {
+		if r := recover(); r != nil {
+			if e, ok := r.(shapeErr); ok {
+				err = e
+				return
+			}
+			panic(r)
+		}
+	}()
+	if p == nil {
+		return shapeErr("nil program")
+	}
+	convProgram(&xc{lenient: true}, p)
+	return nil
 }
 
 // ExprFromXJS converts one expression.
@@ -62,8 +86,10 @@ func ExprFromXJS(e ast.Expression) (n *ir.Node, err error) {
 			panic(r)
 		}
 	}()
-	return xexpr(e, "expr"), nil
+	return (&xc{}).xexpr(e, "expr"), nil
 }
+
+type xc struct{ lenient bool }
 
 type shapeErr string
 
@@ -71,76 +97,76 @@ func (e shapeErr) Error() string { return string(e) }
 
 func fail(f string, a ...interface{}) { panic(shapeErr(fmt.Sprintf(f, a...))) }
 
-func xblock(b *ast.BlockStatement, where string) *ir.Node {
+func (c *xc) xblock(b *ast.BlockStatement, where string) *ir.Node {
 	if b == nil {
 		fail("%s: nil block", where)
 	}
 	out := ir.N(ir.Block, "")
 	out.Kids = []*ir.Node{}
 	for i, s := range b.Statements {
-		out.Kids = append(out.Kids, xstmt(s, fmt.Sprintf("%s/block[%d]", where, i)))
+		out.Kids = append(out.Kids, c.xstmt(s, fmt.Sprintf("%s/block[%d]", where, i)))
 	}
 	return out
 }
 
-func xident(i *ast.Identifier, where string) string {
+func (c *xc) xident(i *ast.Identifier, where string) string {
 	if i == nil {
 		fail("%s: nil identifier", where)
 	}
 	return i.Value
 }
 
-func xparams(ps []*ast.Identifier, where string) []string {
+func (c *xc) xparams(ps []*ast.Identifier, where string) []string {
 	out := []string{}
 	for _, p := range ps {
-		out = append(out, xident(p, where+"/param"))
+		out = append(out, c.xident(p, where+"/param"))
 	}
 	return out
 }
 
-func xopt(e ast.Expression, where string) *ir.Node {
+func (c *xc) xopt(e ast.Expression, where string) *ir.Node {
 	if e == nil {
 		return nil
 	}
 	if isNilIface(e) {
 		fail("%s: typed-nil expression %T", where, e)
 	}
-	return xexpr(e, where)
+	return c.xexpr(e, where)
 }
 
-func xstmt(s ast.Statement, where string) *ir.Node {
+func (c *xc) xstmt(s ast.Statement, where string) *ir.Node {
 	if isNilIface(s) {
 		fail("%s: nil statement (%T)", where, s)
 	}
 	switch v := s.(type) {
 	case *ast.LetStatement:
-		return ir.N(ir.Let, xident(v.Name, where+"/let"), xopt(v.Value, where+"/let.value"))
+		return ir.N(ir.Let, c.xident(v.Name, where+"/let"), c.xopt(v.Value, where+"/let.value"))
 	case *ast.ReturnStatement:
-		return ir.N(ir.Return, "", xopt(v.ReturnValue, where+"/return"))
+		return ir.N(ir.Return, "", c.xopt(v.ReturnValue, where+"/return"))
 	case *ast.ExpressionStatement:
-		return ir.N(ir.ExprStmt, "", xexpr(v.Expression, where+"/expr"))
+		return ir.N(ir.ExprStmt, "", c.xexpr(v.Expression, where+"/expr"))
 	case *ast.FunctionDeclaration:
-		return &ir.Node{K: ir.FuncDecl, Op: xident(v.Name, where+"/function"), Params: xparams(v.Parameters, where), Kids: []*ir.Node{xblock(v.Body, where+"/function.body")}}
+		return &ir.Node{K: ir.FuncDecl, Op: c.xident(v.Name, where+"/function"), Params: c.xparams(v.Parameters, where), Kids: []*ir.Node{c.xblock(v.Body, where+"/function.body")}}
 	case *ast.BlockStatement:
-		return xblock(v, where)
+		return c.xblock(v, where)
 	case *ast.IfStatement:
-		n := ir.N(ir.If, "", xexpr(v.Condition, where+"/if.cond"), xstmt(v.ThenBranch, where+"/if.then"), nil)
+		n := ir.N(ir.If, "", c.xexpr(v.Condition, where+"/if.cond"), c.xstmt(v.ThenBranch, where+"/if.then"), nil)
 		if v.ElseBranch != nil {
-			n.Kids[2] = xstmt(v.ElseBranch, where+"/if.else")
+			n.Kids[2] = c.xstmt(v.ElseBranch, where+"/if.else")
 		}
 		return n
 	case *ast.WhileStatement:
-		return ir.N(ir.While, "", xexpr(v.Condition, where+"/while.cond"), xstmt(v.Body, where+"/while.body"))
+		return ir.N(ir.While, "", c.xexpr(v.Condition, where+"/while.cond"), c.xstmt(v.Body, where+"/while.body"))
 	case *ast.ForStatement:
-		n := ir.N(ir.For, "", nil, xopt(v.Condition, where+"/for.cond"), xopt(v.Update, where+"/for.update"), xstmt(v.Body, where+"/for.body"))
+		n := ir.N(ir.For, "", nil, c.xopt(v.Condition, where+"/for.cond"), c.xopt(v.Update, where+"/for.update"), c.xstmt(v.Body, where+"/for.body"))
 		if v.Init != nil {
 			if isNilIface(v.Init) {
 				fail("%s: typed-nil for init", where)
 			}
 			if le, ok := v.Init.(*ast.LetExpression); ok {
-				n.Kids[0] = ir.N(ir.Let, xident(le.Name, where+"/for.let"), xopt(le.Value, where+"/for.let.value"))
+				n.Kids[0] = ir.N(ir.Let, c.xident(le.Name, where+"/for.let"), c.xopt(le.Value, where+"/for.let.value"))
 			} else {
-				n.Kids[0] = xexpr(v.Init, where+"/for.init")
+				n.Kids[0] = c.xexpr(v.Init, where+"/for.init")
 			}
 		}
 		return n
@@ -149,7 +175,7 @@ func xstmt(s ast.Statement, where string) *ir.Node {
 	return nil
 }
 
-func xexpr(e ast.Expression, where string) *ir.Node {
+func (c *xc) xexpr(e ast.Expression, where string) *ir.Node {
 	if isNilIface(e) {
 		fail("%s: nil expression (%T)", where, e)
 	}
@@ -172,51 +198,54 @@ func xexpr(e ast.Expression, where string) *ir.Node {
 	case *ast.NullLiteral:
 		return ir.N(ir.Null, "")
 	case *ast.GroupedExpression:
-		return xexpr(v.Expression, where+"/group")
+		return c.xexpr(v.Expression, where+"/group")
 	case *ast.UnaryExpression:
-		return ir.N(ir.Unary, v.Operator, xexpr(v.Right, where+"/unary"))
+		return ir.N(ir.Unary, v.Operator, c.xexpr(v.Right, where+"/unary"))
 	case *ast.PostfixExpression:
-		return ir.N(ir.Postfix, v.Operator, xexpr(v.Left, where+"/postfix"))
+		return ir.N(ir.Postfix, v.Operator, c.xexpr(v.Left, where+"/postfix"))
 	case *ast.BinaryExpression:
-		return ir.N(ir.Binary, v.Operator, xexpr(v.Left, where+"/bin.left"), xexpr(v.Right, where+"/bin.right"))
+		return ir.N(ir.Binary, v.Operator, c.xexpr(v.Left, where+"/bin.left"), c.xexpr(v.Right, where+"/bin.right"))
 	case *ast.AssignmentExpression:
-		return ir.N(ir.Assign, "=", xexpr(v.Left, where+"/assign.left"), xexpr(v.Value, where+"/assign.value"))
+		return ir.N(ir.Assign, "=", c.xexpr(v.Left, where+"/assign.left"), c.xexpr(v.Value, where+"/assign.value"))
 	case *ast.CompoundAssignmentExpression:
-		return ir.N(ir.Assign, v.Operator+"=", xexpr(v.Left, where+"/cassign.left"), xexpr(v.Value, where+"/cassign.value"))
+		return ir.N(ir.Assign, v.Operator+"=", c.xexpr(v.Left, where+"/cassign.left"), c.xexpr(v.Value, where+"/cassign.value"))
 	case *ast.CallExpression:
-		n := ir.N(ir.Call, "", xexpr(v.Function, where+"/call.fn"))
+		n := ir.N(ir.Call, "", c.xexpr(v.Function, where+"/call.fn"))
 		if v.Arguments == nil {
 			fail("%s: call with nil argument list", where)
 		}
 		for i, a := range v.Arguments {
-			n.Kids = append(n.Kids, xexpr(a, fmt.Sprintf("%s/call.arg[%d]", where, i)))
+			n.Kids = append(n.Kids, c.xexpr(a, fmt.Sprintf("%s/call.arg[%d]", where, i)))
 		}
 		return n
 	case *ast.MemberExpression:
 		if v.Computed {
-			return ir.N(ir.Index, "", xexpr(v.Object, where+"/index.obj"), xexpr(v.Property, where+"/index.prop"))
+			return ir.N(ir.Index, "", c.xexpr(v.Object, where+"/index.obj"), c.xexpr(v.Property, where+"/index.prop"))
 		}
 		if isNilIface(v.Property) {
 			fail("%s: member without property", where)
 		}
 		id, ok := v.Property.(*ast.Identifier)
 		if !ok {
+			if c.lenient {
+				return ir.N(ir.Member, "?", c.xexpr(v.Object, where+"/member.obj"), c.xexpr(v.Property, where+"/member.prop"))
+			}
 			fail("%s: member property is %T, not an identifier", where, v.Property)
 		}
-		return ir.N(ir.Member, id.Value, xexpr(v.Object, where+"/member.obj"))
+		return ir.N(ir.Member, id.Value, c.xexpr(v.Object, where+"/member.obj"))
 	case *ast.ArrayLiteral:
 		n := ir.N(ir.Array, "")
 		if v.Elements == nil {
 			fail("%s: array with nil element list", where)
 		}
 		for i, a := range v.Elements {
-			n.Kids = append(n.Kids, xexpr(a, fmt.Sprintf("%s/array[%d]", where, i)))
+			n.Kids = append(n.Kids, c.xexpr(a, fmt.Sprintf("%s/array[%d]", where, i)))
 		}
 		return n
 	case *ast.ObjectLiteral:
 		n := ir.N(ir.Object, "")
 		for i, p := range v.Properties {
-			n.Kids = append(n.Kids, xexpr(p.Key, fmt.Sprintf("%s/obj.key[%d]", where, i)), xexpr(p.Value, fmt.Sprintf("%s/obj.value[%d]", where, i)))
+			n.Kids = append(n.Kids, c.xexpr(p.Key, fmt.Sprintf("%s/obj.key[%d]", where, i)), c.xexpr(p.Value, fmt.Sprintf("%s/obj.value[%d]", where, i)))
 		}
 		return n
 	case *ast.FunctionExpression:
@@ -224,15 +253,18 @@ func xexpr(e ast.Expression, where string) *ir.Node {
 		if v.Name != nil {
 			name = v.Name.Value
 		}
-		return &ir.Node{K: ir.Func, Op: name, Params: xparams(v.Parameters, where), Kids: []*ir.Node{xblock(v.Body, where+"/fn.body")}}
+		return &ir.Node{K: ir.Func, Op: name, Params: c.xparams(v.Parameters, where), Kids: []*ir.Node{c.xblock(v.Body, where+"/fn.body")}}
 	case *ast.LetExpression:
+		if c.lenient {
+			return ir.N(ir.Let, c.xident(v.Name, where+"/letexpr"), c.xopt(v.Value, where+"/letexpr.value"))
+		}
 		fail("%s: let expression outside a for initialiser", where)
 	}
-	if c, ok := e.(CustomNode); ok {
-		name, ops := c.CustomShape()
+	if cn, ok := e.(CustomNode); ok {
+		name, ops := cn.CustomShape()
 		n := ir.N(ir.Custom, name)
 		for i, o := range ops {
-			n.Kids = append(n.Kids, xexpr(o, fmt.Sprintf("%s/custom[%d]", where, i)))
+			n.Kids = append(n.Kids, c.xexpr(o, fmt.Sprintf("%s/custom[%d]", where, i)))
 		}
 		return n
 	}
